@@ -97,7 +97,8 @@ impl<R: Read + Send> ChunkIter<R> {
             split_mask,
             rabin,
             size_hint, // size hint is used to optimize memory allocation; this should be an upper bound on the size
-            min_size: chunk_min_size,
+            // a chunk always contains at least one byte
+            min_size: chunk_min_size.max(1),
             max_size: chunk_max_size,
             finished: false,
         })
@@ -116,11 +117,11 @@ impl<R: Read + Send> Iterator for ChunkIter<R> {
         let mut vec = Vec::with_capacity(self.size_hint.min(min_size));
 
         // check if some bytes exist in the buffer and if yes, use them
-        let open_buf_len = self.buf.len() - self.pos;
+        // (but not more than min_size - the buffer may hold more bytes than a small min_size)
+        let open_buf_len = (self.buf.len() - self.pos).min(min_size);
         if open_buf_len > 0 {
-            vec.resize(open_buf_len, 0);
-            vec.copy_from_slice(&self.buf[self.pos..]);
-            self.pos = self.buf.len();
+            vec.extend_from_slice(&self.buf[self.pos..self.pos + open_buf_len]);
+            self.pos += open_buf_len;
             min_size -= open_buf_len;
         }
 
@@ -146,9 +147,15 @@ impl<R: Read + Send> Iterator for ChunkIter<R> {
             return if vec.is_empty() { None } else { Some(Ok(vec)) };
         }
 
-        _ = self
-            .rabin
-            .reset_and_prefill_window(&mut vec[vec.len() - 64..vec.len()].iter().copied());
+        if vec.len() >= 64 {
+            _ = self
+                .rabin
+                .reset_and_prefill_window(&mut vec[vec.len() - 64..vec.len()].iter().copied());
+        } else {
+            // less than a full window read so far (min_size < 64): start from a clean window
+            self.rabin.reset();
+            _ = self.rabin.prefill_window(&mut vec.iter().copied());
+        }
 
         loop {
             if vec.len() >= self.max_size {
